@@ -418,15 +418,20 @@ Proof.
   - cbn [isSome andb]. eexists; eexists; split; [reflexivity|]. cbv beta. rewrite !OK. cbn [nth]. split; field; exact NZ.
 Qed.
 
-(* homogeneous mean field, SIR: explicit sets are reported correctly ... *)
-Lemma row0_SIR_hmf_sets g rq sv I0 :
-  wf_ugraph g = true -> wf_req g true rq = true -> solver_ok sv -> rq_I rq = Some I0 ->
+(* homogeneous mean field, SIR: every consistent request *)
+Lemma row0_SIR_hmf g rq sv :
+  wf_ugraph g = true -> wf_req g true rq = true -> solver_ok sv ->
   exists S I R, SIR_homogeneous_meanfield_from_graph g rq sv = Ok [(nS, Sc S); (nI, Sc I); (nR, Sc R)] /\
               S 0%nat == reqS_n g rq /\ I 0%nat == reqI_n g rq /\ R 0%nat == reqR_n g rq.
 Proof.
-  intros WG W OK E. destruct (wf_req_sets g true rq I0 W E) as (Hrho & _).
-  unfold SIR_homogeneous_meanfield_from_graph, SIR_homogeneous_meanfield, reqS_n, reqI_n, reqR_n, reqR, comp, vnth.
-  rewrite E, Hrho. cbn [isSome andb]. do 3 eexists; split; [reflexivity|]. cbv beta. rewrite !OK. cbn [nth]. repeat split; ring.
+  intros WG W OK. pose proof (gN_nonzero g WG) as NZ.
+  unfold SIR_homogeneous_meanfield_from_graph, SIR_homogeneous_meanfield, reqS_n, reqI_n, reqR_n, reqR, rho_or_default, comp, vnth.
+  destruct (rq_I rq) as [I0|] eqn:E.
+  - destruct (wf_req_sets g true rq I0 W E) as (Hrho & _). rewrite Hrho. cbn [isSome andb].
+    do 3 eexists; split; [reflexivity|]. cbv beta. rewrite !OK. cbn [nth]. repeat split; ring.
+  - rewrite (wf_req_rho g true rq W E). cbn [isSome andb]. rewrite !andb_false_r.
+    destruct (rq_rho rq) as [r|]; do 3 eexists; (split; [reflexivity|]); cbv beta; rewrite !OK; cbn [nth]; unfold len; cbn [length]; change (Qnat 0) with 0;
+      repeat split; try ring; field; exact NZ.
 Qed.
 
 (* ---------------- witness graphs for the refutations ---------------- *)
@@ -438,16 +443,6 @@ Definition path3 : graph :=
 (* star with centre 0 and leaves 1, 2, 3 *)
 Definition star4 : graph :=
   mk_ugraph [0%N; 1%N; 2%N; 3%N] (fun u => if N.eqb u 0 then [1%N; 2%N; 3%N] else if N.leb u 3 then [0%N] else []).
-
-(* ... but rho (or no initial condition at all) crashes: len(None) *)
-Lemma accepts_SIR_hmf_refuted :
-  exists g rq, wf_ugraph g = true /\ wf_req g true rq = true /\
-               forall sv, SIR_homogeneous_meanfield_from_graph g rq sv = Err TypeErr.
-Proof. exists path3, (mkReq None None (Some (1 # 4))). repeat split. Qed.
-Lemma accepts_SIR_hmf_default_refuted :
-  exists g rq, wf_ugraph g = true /\ wf_req g true rq = true /\
-               forall sv, SIR_homogeneous_meanfield_from_graph g rq sv = Err TypeErr.
-Proof. exists path3, (mkReq None None None). repeat split. Qed.
 
 (* ---------------- slices of X0 at time 0 ---------------- *)
 Lemma slice0_app a b n : length a = n -> slice 0 n (a ++ b) = a.
@@ -504,30 +499,29 @@ Qed.
 
 Lemma row0_SIR_hetmf g rq full sv :
   wf_ugraph g = true -> wf_req g true rq = true -> solver_ok sv ->
-  exists S I R, SIR_heterogeneous_meanfield_from_graph g rq full sv = Ok [(nS, Sc S); (nI, Sc I); (nR, Sc R)] /\
-    S 0%nat == reqS_n g rq /\ I 0%nat == reqI_n g rq /\ R 0%nat == reqR_n g rq.
+  exists out, SIR_heterogeneous_meanfield_from_graph g rq full sv = Ok out /\
+    (full = false -> exists S I R, out = [(nS, Sc S); (nI, Sc I); (nR, Sc R)] /\
+        S 0%nat == reqS_n g rq /\ I 0%nat == reqI_n g rq /\ R 0%nat == reqR_n g rq) /\
+    (full = true -> exists Sk Ik Rk, out = [(nSk, Ve Sk); (nIk, Ve Ik); (nRk, Ve Rk)] /\
+        veq (Sk 0%nat) (req_Sk g rq) /\ veq (Ik 0%nat) (req_Ik g rq) /\ Rk 0%nat = req_Rk g rq).
 Proof.
   intros WG W OK. unfold SIR_heterogeneous_meanfield_from_graph.
   rewrite (get_Nk_ok g true rq WG W). cbn [rbind nk_Sk nk_Ik nk_Rk].
   unfold SIR_heterogeneous_meanfield. rewrite req_Sk_length, req_Ik_length, req_Rk_length, Nat.eqb_refl. cbn [negb orb].
-  do 3 eexists. split; [reflexivity|].
-  unfold vsumt, sfrom, comp, vnth. cbv beta. rewrite !OK. cbn [nth slice_from skipn].
   assert (HS : veq (vmul (req_Sk g rq) (spow_arange 1 (length (req_Rk g rq)))) (req_Sk g rq)).
   { rewrite req_Rk_length. etransitivity; [apply vmul_veq, spow_arange_1|]. apply vmul_ones, req_Sk_length. }
+  assert (HI : veq (vsub (vsub (vadd (vadd (req_Sk g rq) (req_Ik g rq)) (req_Rk g rq))
+                               (vmul (req_Sk g rq) (spow_arange 1 (length (req_Rk g rq))))) (req_Rk g rq)) (req_Ik g rq)).
+  { apply veq_of_nth; [lens|]. intros i Hi.
+    assert (Li : (i < S (gmaxdeg g))%nat) by (revert Hi; lens).
+    rewrite !nth_vsub, nth_vmul, !nth_vadd, nth_spow_arange by lens. unfold qpow. rewrite Qpower_1. ring. }
   pose proof (vsum_req_Sk g true rq WG W) as ES. pose proof (vsum_req_Ik g true rq WG W) as EI.
   pose proof (vsum_req_Rk g true rq WG W) as ER.
-  split; [rewrite (vsum_veq _ _ HS); exact ES|]. split; [|exact ER].
-  rewrite !vsum_vsub by lens. rewrite !vsum_vadd by lens. rewrite (vsum_veq _ _ HS), ES, EI, ER.
-  unfold reqS_n, reqI_n, reqR_n. destruct (rq_I rq); ring.
-Qed.
-
-(* ... but return_full_data=True does not give the documented times, Sk, Ik, Rk *)
-Lemma full_SIR_hetmf_refuted :
-  exists g rq, wf_ugraph g = true /\ wf_req g true rq = true /\
-    exists out, SIR_heterogeneous_meanfield_from_graph g rq true const_solver = Ok out /\ lookup nSk out = None.
-Proof.
-  exists path3, (mkReq (Some [0%N]) None None). split; [reflexivity|]. split; [reflexivity|].
-  eexists. split; [reflexivity|]. reflexivity.
+  destruct full; eexists; (split; [reflexivity|]); (split; [intros Hf; try discriminate Hf|intros Hf; try discriminate Hf]).
+  - do 3 eexists. split; [reflexivity|]. unfold sfrom, comp, vnth. cbv beta. rewrite !OK. cbn [nth slice_from skipn].
+    split; [exact HS|]. split; [exact HI|reflexivity].
+  - do 3 eexists. split; [reflexivity|]. unfold vsumt, sfrom, comp, vnth. cbv beta. rewrite !OK. cbn [nth slice_from skipn].
+    split; [rewrite (vsum_veq _ _ HS); exact ES|]. split; [rewrite (vsum_veq _ _ HI); exact EI|exact ER].
 Qed.
 
 (* ---------------- pair counts of a request ---------------- *)
@@ -582,6 +576,29 @@ Qed.
 Lemma weighted_Nk_sum2' g c1 c2 :
   vsum (map (fun k => nth k (Nk_of g) 0 * Qnat k * c1 * c2) (classes g)) == c1 * c2 * degsum g.
 Proof. exact (weighted_Nk_sum2 g c1 c2). Qed.
+
+Lemma vsum_nth v : vsum v == sumQ (map (fun i => nth i v 0) (seq 0 (length v))).
+Proof.
+  induction v as [|x v IH]; [reflexivity|]. cbn [length seq map]. rewrite vsum_cons, sumQ_cons. cbn [nth].
+  rewrite <- seq_shift, map_map. cbn [nth]. rewrite <- IH. reflexivity.
+Qed.
+
+(* np.dot(c*Nk, ks) = c * sum of the degrees *)
+Lemma dot_Nk_ks g c : dot (smul c (Nk_of g)) (ksv (Nk_of g)) == c * degsum g.
+Proof.
+  unfold dot, ksv. rewrite vsum_nth.
+  assert (L : length (Nk_of g) = S (gmaxdeg g)) by apply byclass_length.
+  rewrite vmul_length, smul_length, arange_length, Nat.min_id, L.
+  rewrite <- Nk_degsum, <- sumQ_map_scal. unfold classes. apply sumQ_map_ext. intros i Hi. apply in_seq in Hi.
+  rewrite nth_vmul, nth_smul, nth_arange by (rewrite ?smul_length, ?arange_length, ?L; lia). unfold vnth. ring.
+Qed.
+Lemma dot_Nk_ks1 g : dot (Nk_of g) (ksv (Nk_of g)) == degsum g.
+Proof.
+  rewrite <- (Qmult_1_l (degsum g)), <- dot_Nk_ks. unfold dot. apply vsum_veq.
+  apply veq_of_nth; [rewrite !vmul_length, smul_length; reflexivity|]. intros i Hi.
+  rewrite vmul_length in Hi. unfold ksv in *. rewrite arange_length, Nat.min_id in Hi.
+  rewrite !nth_vmul, nth_smul by (rewrite ?smul_length, ?arange_length; lia). ring.
+Qed.
 
 (* compact pairwise, SIS (and SIS compact effective degree, which is the same function) *)
 Lemma row0_SIS_cp g rq full sv :
@@ -639,11 +656,18 @@ Proof.
       apply (get_Nk_ok g true rq WG W).
 Qed.
 
-(* compact pairwise, SIR: S, I, R at tmin *)
-Lemma row0_SIR_cp g rq sv :
+(* compact pairwise, SIR: S, I, R at tmin; full data: Sk, I, R, SS, SI *)
+Lemma req_Sk_rho g rq : rq_I rq = None -> req_Sk g rq = smul (1 - rho_or_default g (rq_rho rq)) (Nk_of g).
+Proof. unfold req_Sk. intros ->. reflexivity. Qed.
+
+Lemma row0_SIR_cp g rq full sv :
   wf_ugraph g = true -> wf_req g true rq = true -> solver_ok sv ->
-  exists S I R, SIR_compact_pairwise_from_graph g rq false sv = Ok [(nS, Sc S); (nI, Sc I); (nR, Sc R)] /\
-    S 0%nat == reqS_n g rq /\ I 0%nat == reqI_n g rq /\ R 0%nat == reqR_n g rq.
+  exists out, SIR_compact_pairwise_from_graph g rq full sv = Ok out /\
+    (full = false -> exists S I R, out = [(nS, Sc S); (nI, Sc I); (nR, Sc R)] /\
+        S 0%nat == reqS_n g rq /\ I 0%nat == reqI_n g rq /\ R 0%nat == reqR_n g rq) /\
+    (full = true -> exists Sk I R SS SI, out = [(nSk, Ve Sk); (nI, Sc I); (nR, Sc R); (nSS, Sc SS); (nSI, Sc SI)] /\
+        Sk 0%nat = req_Sk g rq /\ I 0%nat == reqI_n g rq /\ R 0%nat == reqR_n g rq /\
+        SS 0%nat == pSS (req_pairs g rq) /\ SI 0%nat == pSI (req_pairs g rq)).
 Proof.
   intros WG W OK. unfold SIR_compact_pairwise_from_graph.
   assert (NB : (isSome (rq_rho rq) && isSome (rq_I rq))%bool = false).
@@ -651,32 +675,33 @@ Proof.
   rewrite NB. pose proof (get_Nk_sir_default g rq WG W) as HN.
   pose proof (vsum_req_Sk g true rq WG W) as ES. pose proof (vsum_req_Ik g true rq WG W) as EI.
   pose proof (vsum_req_Rk g true rq WG W) as ER.
+  assert (HP : forall r, rq_I rq = None -> rho_or_default g (rq_rho rq) = r ->
+               (1 - r) * dot (req_Sk g rq) (ksv (Nk_of g)) == pSS (req_pairs g rq) /\
+               r * dot (req_Sk g rq) (ksv (Nk_of g)) == pSI (req_pairs g rq)).
+  { intros r E Hr. rewrite (req_Sk_rho g rq E), Hr, dot_Nk_ks. unfold req_pairs, pSS, pSI. rewrite E, Hr. cbn [fst snd]. split; ring. }
   destruct (rq_rho rq) as [r|] eqn:Er; [destruct (rq_I rq) as [I0|] eqn:E; [exfalso; eapply wf_req_not_both; eauto|]|destruct (rq_I rq) as [I0|] eqn:E].
   all: rewrite HN; cbn [rbind nk_Sk nk_Ik nk_Nk nk_Rk].
   2: rewrite (count_edge_types_ok g true rq I0 W E); cbn [rbind]; destruct (count_edge_types_st g (req_status rq)) as [[ss si] ii] eqn:EC.
-  all: unfold SIR_compact_pairwise; do 3 eexists; (split; [reflexivity|]);
+  all: unfold SIR_compact_pairwise; destruct full; eexists; (split; [reflexivity|]); (split; intros Hf; try discriminate Hf).
+  all: try (do 5 eexists; (split; [reflexivity|]));  try (do 3 eexists; (split; [reflexivity|]));
     unfold vsumt, dlast, tlast, vnth; cbv beta; rewrite !OK; rewrite ?drop_last_app, ?take_last_app by reflexivity; cbn [nth].
-  all: rewrite ES, EI, ER; repeat split; try reflexivity; ring.
+  all: rewrite ?ES, ?EI, ?ER.
+  - destruct (HP r eq_refl eq_refl) as [H1 H2]. split; [reflexivity|]. split; [ring|]. split; [reflexivity|]. split; assumption.
+  - repeat split; try reflexivity; ring.
+  - split; [reflexivity|]. split; [ring|]. split; [reflexivity|]. unfold req_pairs, pSS, pSI. rewrite E, EC. cbn [fst snd]. split; reflexivity.
+  - repeat split; try reflexivity; ring.
+  - destruct (HP (1 / gN g) eq_refl eq_refl) as [H1 H2]. split; [reflexivity|]. split; [ring|]. split; [reflexivity|]. split; assumption.
+  - repeat split; try reflexivity; ring.
 Qed.
 
-(* ... but with return_full_data the SS and SI series are exchanged *)
-Lemma row0_SIR_cp_full_refuted :
-  exists g rq, wf_ugraph g = true /\ wf_req g true rq = true /\
-    exists out SS SI, SIR_compact_pairwise_from_graph g rq true const_solver = Ok out /\
-      lookup nSS out = Some (Sc SS) /\ lookup nSI out = Some (Sc SI) /\
-      ~ SS 0%nat == pSS (req_pairs g rq) /\ SS 0%nat == pSI (req_pairs g rq) /\ SI 0%nat == pSS (req_pairs g rq).
-Proof.
-  exists path3, (mkReq (Some [0%N]) None None). split; [reflexivity|]. split; [reflexivity|].
-  do 3 eexists. split; [vm_compute; reflexivity|]. split; [vm_compute; reflexivity|]. split; [vm_compute; reflexivity|].
-  split; [|split]; vm_compute; [intros H; discriminate H|reflexivity|reflexivity].
-Qed.
-
-(* super compact pairwise, SIS: S and I at tmin *)
+(* super compact pairwise, SIS: S, I and (full data) SS, SI, II at tmin *)
 Lemma row0_SIS_scp g rq full sv :
   wf_ugraph g = true -> wf_req g false rq = true -> solver_ok sv ->
   exists out S I, SIS_super_compact_pairwise_from_graph g rq full sv = Ok out /\
     lookup nS out = Some (Sc S) /\ lookup nI out = Some (Sc I) /\
-    S 0%nat == reqS_n g rq /\ I 0%nat == reqI_n g rq.
+    S 0%nat == reqS_n g rq /\ I 0%nat == reqI_n g rq /\
+    (full = true -> exists SS SI II, lookup nSS out = Some (Sc SS) /\ lookup nSI out = Some (Sc SI) /\ lookup nII out = Some (Sc II) /\
+       SS 0%nat == pSS (req_pairs g rq) /\ SI 0%nat == pSI (req_pairs g rq) /\ II 0%nat == pII (req_pairs g rq)).
 Proof.
   intros WG W OK. pose proof (wf_req_noR g rq W) as NR. unfold SIS_super_compact_pairwise_from_graph.
   assert (NB : (isSome (rq_rho rq) && isSome (rq_I rq))%bool = false).
@@ -685,53 +710,33 @@ Proof.
   pose proof (vsum_req_Sk g false rq WG W) as ES. pose proof (vsum_req_Ik g false rq WG W) as EI.
   destruct (rq_I rq) as [I0|] eqn:E.
   - rewrite <- NR, (count_edge_types_ok g false rq I0 W E). cbn [rbind].
-    destruct (count_edge_types_st g (req_status rq)) as [[ss si] ii].
+    destruct (count_edge_types_st g (req_status rq)) as [[ss si] ii] eqn:EC.
     unfold SIS_super_compact_pairwise. do 3 eexists. split; [reflexivity|]. split; [look|]. split; [look|].
-    unfold comp, vnth. cbv beta. rewrite !OK. cbn [nth]. rewrite ES, EI. split; [ring|reflexivity].
+    unfold comp, vnth. cbv beta. rewrite !OK. cbn [nth]. rewrite ES, EI. split; [ring|]. split; [reflexivity|].
+    intros ->. do 3 eexists. split; [look|]. split; [look|]. split; [look|]. cbv beta. rewrite !OK. cbn [nth].
+    unfold req_pairs, pSS, pSI, pII. rewrite E, EC. cbn [fst snd]. repeat split; reflexivity.
   - unfold SIS_super_compact_pairwise. do 3 eexists. split; [reflexivity|]. split; [look|]. split; [look|].
-    unfold comp, vnth. cbv beta. rewrite !OK. cbn [nth]. rewrite ES, EI. split; [ring|reflexivity].
+    unfold comp, vnth. cbv beta. rewrite !OK. cbn [nth]. rewrite ES, EI. split; [ring|]. split; [reflexivity|].
+    intros ->. do 3 eexists. split; [look|]. split; [look|]. split; [look|]. cbv beta. rewrite !OK. cbn [nth].
+    rewrite (req_Sk_rho g rq E), dot_Nk_ks, dot_Nk_ks1. unfold req_pairs, pSS, pSI, pII. rewrite E. cbn [fst snd]. repeat split; ring.
 Qed.
 
-(* ... but on the rho path II(0) is rho * sum of degrees, not rho^2 * sum of degrees *)
-Lemma row0_SIS_scp_II_refuted :
-  exists g rq, wf_ugraph g = true /\ wf_req g false rq = true /\
-    exists out II, SIS_super_compact_pairwise_from_graph g rq true const_solver = Ok out /\
-      lookup nII out = Some (Sc II) /\ ~ II 0%nat == pII (req_pairs g rq) /\ II 0%nat == (1 # 4) * degsum g.
-Proof.
-  exists path3, (mkReq None None (Some (1 # 4))). split; [reflexivity|]. split; [reflexivity|].
-  do 2 eexists. split; [vm_compute; reflexivity|]. split; [vm_compute; reflexivity|].
-  split; vm_compute; [intros H; discriminate H|reflexivity].
-Qed.
-
-(* effective degree, SIR: initially recovered nodes are reported as susceptible *)
-Lemma row0_SIR_ed_refuted :
-  exists g rq, wf_ugraph g = true /\ wf_req g true rq = true /\
-    exists out S R, SIR_effective_degree_from_graph g rq false const_solver = Ok out /\
-      lookup nS out = Some (Sc S) /\ lookup nR out = Some (Sc R) /\
-      ~ S 0%nat == reqS_n g rq /\ ~ R 0%nat == reqR_n g rq /\ S 0%nat == 2 /\ reqS_n g rq == 1.
-Proof.
-  exists path3, (mkReq (Some [0%N]) (Some [2%N]) None). split; [reflexivity|]. split; [reflexivity|].
-  do 3 eexists. split; [vm_compute; reflexivity|]. split; [vm_compute; reflexivity|]. split; [vm_compute; reflexivity|].
-  repeat split; vm_compute; try reflexivity; intros H; discriminate H.
-Qed.
-
-(* heterogeneous pairwise: SIS crashes with full data, SIR exchanges SkSl and SkIl *)
+(* heterogeneous pairwise, SIS, full data: still refused (ValueError from the IkIl expression) *)
 Lemma accepts_SIS_hetpw_full_refuted :
   exists g rq, wf_ugraph g = true /\ wf_req g false rq = true /\
-    forall sv, SIS_heterogeneous_pairwise_from_graph g rq true sv = Err NameErr.
+    forall sv, SIS_heterogeneous_pairwise_from_graph g rq true sv = Err ValueErr.
 Proof. exists path3, (mkReq (Some [0%N]) None None). repeat split. Qed.
 
-Lemma row0_SIR_hetpw_full_refuted :
-  exists g rq, wf_ugraph g = true /\ wf_req g true rq = true /\
-    exists kk out SkSl SkIl, get_NkNl_and_IC g rq = Ok kk /\
-      SIR_heterogeneous_pairwise_from_graph g rq true const_solver = Ok out /\
+(* heterogeneous pairwise, SIR, full data: the former witness of the SkSl/SkIl exchange now shows the documented order *)
+Lemma row0_SIR_hetpw_full_example :
+  exists kk out SkSl SkIl, get_NkNl_and_IC path3 (mkReq (Some [0%N]) None None) = Ok kk /\
+      SIR_heterogeneous_pairwise_from_graph path3 (mkReq (Some [0%N]) None None) true const_solver = Ok out /\
       lookup nSkSl out = Some (Ma SkSl) /\ lookup nSkIl out = Some (Ma SkIl) /\
-      SkSl 0%nat <> kk_SkSl kk /\ SkSl 0%nat = kk_SkIl kk /\ SkIl 0%nat = kk_SkSl kk.
+      SkSl 0%nat = kk_SkSl kk /\ SkIl 0%nat = kk_SkIl kk /\ kk_SkSl kk <> kk_SkIl kk.
 Proof.
-  exists path3, (mkReq (Some [0%N]) None None). split; [reflexivity|]. split; [reflexivity|].
   do 4 eexists. split; [vm_compute; reflexivity|]. split; [vm_compute; reflexivity|].
   split; [vm_compute; reflexivity|]. split; [vm_compute; reflexivity|].
-  split; [vm_compute; intros H; discriminate H|]. split; vm_compute; reflexivity.
+  split; [vm_compute; reflexivity|]. split; [vm_compute; reflexivity|]. vm_compute. intros H; discriminate H.
 Qed.
 
 (* ======================= conservation: structural cases ======================= *)
